@@ -55,7 +55,7 @@ def place(rng, files, root, ndirs):
 def run(ctx):
     ctx.rule = ("a base set S of 2-6 valid units of all types (with references inside S) and an extra set E of 1-5 files (valid units, and broken ones: syntax error, no section, unknown key, "
                 "missing image, dangling reference, bad escape, invalid UTF-8, bad value, a directory named like a unit), names disjoint, nothing in S referring to E and no valid container of E naming a pod of S (failing ones may); "
-                "S alone and S+E each placed over 1-3 search directories with nested subdirectories in random creation order; compared service by service; non-trivial = E contains at least one broken file; "
+                "also runs in which every file fails to load or to convert; S alone and S+E each placed over 1-3 search directories with nested subdirectories in random creation order; compared service by service; non-trivial = E contains at least one broken file; "
                 "distinct = distinct (S, E)")
     rng = ctx.rng
     n = ctx.volume(60, 800)
@@ -121,6 +121,30 @@ def run(ctx):
                             bad = "no error line naming %s" % b
             if bad:
                 ctx.failures.append({"op": "e2e", "base": sorted(S), "extra": {k: (show(v) if v is not None else "<directory>") for k, v in E.items()}, "what": bad, "class": None})
+        # runs in which NO file survives loading, or none converts: the exit status and the error lines must still be there
+        load_fail = ["syntax", "nosection", "invalid_utf8"]
+        for i in range(ctx.volume(30, 300)):
+            kinds = [rng.choice(load_fail if i % 2 == 0 else list(BROKEN)) for _ in range(rng.randint(1, 4))]
+            files = {"f%d.%s" % (j, rng.choice(["container", "volume", "kube"]) if k in load_fail else "container"): BROKEN[k] for j, k in enumerate(kinds)}
+            if i % 2 == 1 and not any(k in load_fail for k in kinds):
+                pass
+            root = box.path("only_%d" % i)
+            os.makedirs(root)
+            ds = place(rng, files, root, rng.randint(1, 2))
+            rc, out, err = e2e.run_quadlet(ds, os.path.join(root, "out"), dry_run=bool(i % 3))
+            errt = err.decode("utf-8", "surrogateescape")
+            ctx.evaluations += 1
+            ctx.nontrivial.add(str(sorted((k, str(v)) for k, v in files.items())))
+            ctx.count("only_broken_files=%d" % len(files))
+            bad = None
+            if rc != 1:
+                bad = "exit status %s although every file fails (%s)" % (rc, kinds)
+            else:
+                for name in files:
+                    if not any(name in l and "ERROR" in l for l in errt.split("\n")):
+                        bad = "no error line naming %s" % name
+            if bad:
+                ctx.failures.append({"op": "e2e", "base": [], "extra": {k: show(v) for k, v in files.items()}, "what": bad, "class": None})
     ctx.samples = [{"base": ["net.network", "data.volume", "web.container", "pd.pod", "in.container"], "extra_kinds": sorted(BROKEN)}]
     ctx.oblig("direct oracle: every service of the base set is unchanged (up to name=value option order) by unrelated valid/broken files, placements and creation orders; exit status is non-zero exactly when a file fails; each failing file is named in an ERROR line",
               not ctx.failures, "%d failures" % len(ctx.failures))
